@@ -23,7 +23,7 @@ def msan_probes():
 def streams(viprobe, exprobe, tier, seed, wide):
     rng = Rng(seed)
     big = tier != "quick" or wide
-    junk = [with_quit(c) for c in gen_vi.junk_cases(rng, 9000 if big else 700)]
+    junk = [with_quit(c) for c in gen_vi.junk_cases(rng, 9000 if big else 700) + gen_vi.search_cases(rng, 3000 if big else 260) + gen_vi.edit_cases(rng, 2000 if big else 120)]
     extra = []
     if big:
         mvi, mex = msan_probes()
@@ -33,7 +33,7 @@ def streams(viprobe, exprobe, tier, seed, wide):
                  exlib.ex_stream(mex, "ex-junk-msan", "ex", gen_ex.junk_ex_cases(mrng, 3000) + gen_ex.c06_cases(mrng, 1000) + gen_ex.buf_cases(mrng, 1000, 4, 12),
                     "the ex junk, line-command and buffer streams under MemorySanitizer")]
     return extra + [vilib.vi_stream(viprobe, "vi-junk", "vi05", junk,
-            "nonsensical, truncated and mutated vi key streams (typed text valid UTF-8: ASCII incl. control characters, whole multi-byte characters), files over ASCII / multi-byte / wide / combining / right-to-left text, missing and empty files, windows from 2x2 to 24x80, each ending in ESC ESC : ^E q! RET; under ASan/UBSan with a 20 s limit per case: no sanitizer report, no crash, the quit is reached with every key consumed; the model runs on the same keys"),
+            "nonsensical, truncated and mutated vi key streams, plus search programs (/ ? n N ^A with counts, empty-matching patterns scanned backward over multi-byte lines) and editing programs (typed text valid UTF-8: ASCII incl. control characters, whole multi-byte characters), files over ASCII / multi-byte / wide / combining / right-to-left text, missing and empty files, windows from 2x2 to 24x80, each ending in ESC ESC : ^E q! RET; under ASan/UBSan with a 20 s limit per case: no sanitizer report, no crash, the quit is reached with every key consumed; the model runs on the same keys"),
             exlib.ex_stream(exprobe, "ex-junk", "ex", gen_ex.junk_ex_cases(rng, 9000 if big else 700),
             "nonsensical, truncated and over-long ex command lines (addresses in and out of range, every command and option name, lines of 500..2000 bytes around the 512-byte limit, text blocks, empty and missing files) ending in q!; under ASan/UBSan; the model runs on the same scripts")]
 
